@@ -81,6 +81,13 @@ QUICK = [_reg(Parse("text6", 6, ALPHA)).name, _reg(Parse("hdr9", 9, [ord(c) for 
 THOROUGH = [_reg(Parse("T_text9", 9, ALPHA)).name, _reg(Parse("T_hdr11", 11, [ord(c) for c in ">\n\r AcxN-"], starts_with_header=True)).name]
 
 
+# archive level, through the real CLI create path (harness/cli_create.py)
+from harness import cli_create as _cc
+for _n in ['T_anytext4', 'anytext3']:
+    INSTANCES[_n] = _cc.INSTANCES[_n]
+QUICK += ['anytext3']; THOROUGH += ['anytext3', 'T_anytext4']
+
+
 def run(ctx):
     insts = [INSTANCES[n] for n in (QUICK if ctx["tier"] == "quick" else THOROUGH)]
     return run_instances("C16", "harness.C16", insts, ctx,
